@@ -24,6 +24,7 @@ pub const BASH_EXCLUDED_VARIABLES: &[&str] = &[
     "__SCRUT_DECLARE_VARS_CMD",
     "__SCRUT_EXIT_CODE",
     "__SCRUT_TEMP_STATE_PATH",
+    "__SCRUT_XV",
     // variables set by scrut in every execution
     "SCRUT_TEST",
     // variables from `man bash`
